@@ -482,6 +482,21 @@ func (g *Gen) Step() (int64, H) {
 					if g.Pos[k] < 0 {
 						g.Pos[k] = 0
 					}
+					if r.Chance(60) {
+						// the observations "move": the total does not go down, only this bucket does
+						g.Count("step:redistribute")
+						ks := keysOf(g.Pos)
+						g.Pos[ks[r.Intn(len(ks))]] += v - g.Pos[k] + int64(r.Intn(2))
+						if g.Pos[k] >= v {
+							g.Pos[k] = v - 1
+							k2 := k + 1
+							if g.custom() && k2 > len(g.Custom) {
+								k2 = k - 1
+							}
+							g.Pos[k2] += 2
+							g.Known[k2] = true
+						}
+					}
 					break
 				}
 			}
@@ -495,6 +510,10 @@ func (g *Gen) Step() (int64, H) {
 		case 2:
 			if g.ZC > 0 {
 				g.ZC--
+				if r.Bool() {
+					g.bump(g.Pos)
+					g.bump(g.Pos)
+				}
 			}
 		default:
 			g.Pos, g.Neg, g.ZC = map[int]int64{}, map[int]int64{}, 0
